@@ -18,7 +18,7 @@ func init() {
 
 // HarnessC03Exchange: a = {K events, tcp, socket fails from log position (-1 never), configuration}.
 // One real Send from an arbitrary sender state (sequence number s and channel c symbolic). The
-// environment, K times: stays silent from now on, lets one resend interval pass, offers an
+// environment, K times: stays silent from now on, lets a whole or half a resend interval pass, offers an
 // acknowledgement with symbolic sequence number and status, or closes the ack channel.
 func HarnessC03Exchange(a []int) {
 	K, tcp := a[0], a[1] == 1
@@ -40,11 +40,13 @@ func HarnessC03Exchange(a []int) {
 	go func() {
 		verifDaemon()
 		for i := 0; i < K; i++ {
-			switch nondetChoice(4) {
+			switch nondetChoice(5) {
 			case 0:
 				return
 			case 1:
 				verifSleep(resend)
+			case 4:
+				verifSleep(resend / 2)
 			case 2:
 				r := &knxnet.TunnelRes{Channel: c, SeqNumber: nondetU8(), Status: knxnet.ErrCode(nondetU8())}
 				conn.ack <- r
